@@ -1,4 +1,5 @@
 """C19 - failures of the caller's stream or callbacks pass through cleanly (fault enumeration)."""
+import errno
 import random
 
 import yaml
@@ -50,6 +51,10 @@ KINDS = [
     lambda m: XYaml(m), lambda m: yaml.MarkedYAMLError(problem=m), lambda m: yaml.reader.ReaderError('x', 0, 0, 'utf-8', m),
     lambda m: yaml.constructor.ConstructorError(None, None, m, None), lambda m: yaml.representer.RepresenterError(m),
     lambda m: yaml.emitter.EmitterError(m), lambda m: AssertionError(m), lambda m: NotImplementedError(m),
+    # OS-level errors a stream really raises, with the errno values that invite a "retry" or "ignore"
+    lambda m: OSError(errno.EINTR, m), lambda m: InterruptedError(errno.EINTR, m), lambda m: BlockingIOError(errno.EAGAIN, m), lambda m: TimeoutError(errno.ETIMEDOUT, m),
+    lambda m: BrokenPipeError(errno.EPIPE, m), lambda m: ConnectionResetError(errno.ECONNRESET, m), lambda m: PermissionError(errno.EACCES, m),
+    lambda m: EOFError(m), lambda m: RecursionError(m), lambda m: OverflowError(m), lambda m: BufferError(m), lambda m: UnicodeError(m), lambda m: SystemError(m),
 ]
 NK = len(KINDS)
 # StopIteration is only injected where no generator of the library's public API stands between the fault and the caller
@@ -57,6 +62,15 @@ NK = len(KINDS)
 # itself rewrites it (PEP 479), which is not PyYAML's doing
 KIND_STOP = NK
 KINDS_ALL = KINDS + [lambda m: StopIteration(m)]
+
+
+def exc_state(e):
+    """What 'unchanged' means beyond identity: arguments, attributes, notes and text of the exception object."""
+    try:
+        attrs = sorted((k, repr(v)[:200]) for k, v in vars(e).items())
+    except TypeError:
+        attrs = None
+    return (type(e), repr(e.args)[:300], attrs, tuple(getattr(e, '__notes__', ()) or ()), str(e)[:300], e.__cause__ is None)
 
 
 def fresh_exc(i, kind=None):
@@ -189,6 +203,7 @@ def read_case(env, r, data, label, op, lname, schedule, only=None):
     ctx.statmax('max:read_invocations', N)
     for i, kind in [(i, k) for i in (indices(N, r) if only is None else [only]) for k in kinds_at(i, N)]:
         exc = fresh_exc(i, kind)
+        state0 = exc_state(exc)
         st, e, got, s = run_read(op, lname, data, schedule, i, exc)
         raised = len(s.calls) > i and s.calls[i][1] is None
         ctx.case(core.h64('r', label, op, lname, repr(schedule), i, kind), raised, ['read:' + op])
@@ -202,8 +217,13 @@ def read_case(env, r, data, label, op, lname, schedule, only=None):
         if st != 'exc' or e is not exc:
             ctx.violation(dict(case, index=i), {'what': 'the stream\'s exception did not reach the caller unchanged', 'injected': repr(exc),
                                                 'got': 'no exception' if st != 'exc' else '%s: %s' % (type(e).__name__, str(e)[:150])}, None)
+        elif exc_state(e) != state0:
+            ctx.violation(dict(case, index=i), {'what': 'the stream\'s exception reached the caller as the same object but altered (arguments, attributes, notes or cause)',
+                                                'before': repr(state0)[:300], 'after': repr(exc_state(e))[:300]}, None)
         if got != got0[:len(got)]:
             ctx.violation(dict(case, index=i), {'what': 'items delivered before the fault differ from the fault-free run', 'n': len(got)}, None)
+        if len(s.calls) > i + 1:
+            ctx.violation(dict(case, index=i), {'what': 'the stream was read again after its read() had raised', 'reads_after_the_fault': len(s.calls) - i - 1}, None)
         env.after(case, i)
 
 
@@ -243,7 +263,9 @@ def write_case(env, r, kind, dname, mk, label, opts, text, only=None):
     ctx.statmax('max:write_invocations', N)
     for i, ek in [(i, k) for i in (indices(N, r) if only is None else [only]) for k in kinds_at(i, N, w0.ops[i][0] == 'f', dump_side=True)]:
         exc = fresh_exc(i, ek)
-        st, e, w = run_write(kind, dname, mk(), opts, text, i, exc)
+        state0 = exc_state(exc)
+        payload = mk()
+        st, e, w = run_write(kind, dname, payload, opts, text, i, exc)
         raised = len(w.ops) > i and w.ops[i][0] == 'x'
         ctx.case(core.h64('w', label, kind, dname, repr(opts), text, i, ek), raised, ['write:' + kind, 'write_op:' + w0.ops[i][0]])
         ctx.stat('kind:' + type(exc).__name__)
@@ -253,9 +275,19 @@ def write_case(env, r, kind, dname, mk, label, opts, text, only=None):
         if st != 'exc' or e is not exc:
             ctx.violation(dict(case, index=i), {'what': 'the stream\'s exception did not reach the caller unchanged', 'injected': repr(exc),
                                                 'got': 'no exception' if st != 'exc' else '%s: %s' % (type(e).__name__, str(e)[:150])}, None)
+        elif exc_state(e) != state0:
+            ctx.violation(dict(case, index=i), {'what': 'the stream\'s exception reached the caller as the same object but altered (arguments, attributes, notes or cause)',
+                                                'before': repr(state0)[:300], 'after': repr(exc_state(e))[:300]}, None)
         part = w.written()
         if part is not None and not full.startswith(part):
             ctx.violation(dict(case, index=i), {'what': 'output written before the fault is not a prefix of the fault-free output', 'written': repr(part[-80:])}, None)
+        if i % 3 == 0 and kind == 'dump_all':
+            # the very same value objects again, without a fault: the failed call must not have left anything behind that concerns them
+            st2, e2, w2 = run_write(kind, dname, payload, opts, text, None, None)
+            ctx.stat('same_value_redumps')
+            if st2 != 'ok' or w2.written() != full:
+                ctx.violation(dict(case, index=i), {'what': 'dumping the same value objects again after the failed call gives another text',
+                                                    'got': repr(w2.written())[:200] if st2 == 'ok' else repr(e2)[:200]}, None)
         env.after(case, i)
 
 
@@ -365,6 +397,24 @@ def callback_cases(env, r, only=None):
                 continue
             D, P, MSub = v
             jobs.append(('dump:' + base, lambda D=D, P=P, MSub=MSub: yaml.dump_all([[P(i), MSub(), {'k': P(-i)}] for i in range(10)], Dumper=D)))
+            # the same value objects in every run (a failed call must leave nothing behind that concerns them) ...
+            same = [[P(i), MSub(), {'k': P(-i), 'm': {'n': [P(i + 100)]}}] for i in range(6)]
+            jobs.append(('dumpsame:' + base, lambda D=D, same=same: yaml.dump_all(same, Dumper=D)))
+            # ... and a caller's stream: open-ended documents (plain root scalars, a keep-chomped literal) before the one whose
+            # representer - or the documents iterable itself - fails; what was written stays a prefix of the fault-free text
+            holder = {}
+
+            def gen_docs(P=P, cb=cb):
+                for j, d in enumerate(['plain', [P(1)], 5, 'lit\n\n', {'k': P(2)}, 'tail', [P(3), P(4)]]):
+                    cb.tick()
+                    yield d
+
+            def to_stream(D=D, holder=holder, gen_docs=gen_docs):
+                ws = streams.WriteStream(text=True)
+                holder['ws'] = ws
+                yaml.dump_all(gen_docs(), ws, Dumper=D)
+                return ws.written()
+            jobs.append(('dumpstream:' + base, to_stream, holder))
     if not env.conly:
         LY, DY, YO = cl['yobj']
 
@@ -374,7 +424,9 @@ def callback_cases(env, r, only=None):
             return o
         jobs.append(('yobj:load', lambda: repr([type(x).__name__ for x in yaml.load('- !yo {a: 1}\n- !yo {a: 2}\n- !yo {a: 3}\n', Loader=LY)])))
         jobs.append(('yobj:dump', lambda: yaml.dump([mk(), mk(), mk()], Dumper=DY)))
-    for label, fn in jobs:
+    for job in jobs:
+        label, fn = job[0], job[1]
+        holder = job[2] if len(job) > 2 else None
         case = {'side': 'callback', 'label': label}
         ctx.crumb(case)
         cb.n, cb.fail_at, cb.raised = 0, None, False
@@ -382,8 +434,9 @@ def callback_cases(env, r, only=None):
         N = cb.n
         ctx.stat('callback_cases')
         ctx.statmax('max:callback_invocations', N)
-        for i, ek in [(i, k) for i in (range(N) if only is None else [only]) for k in kinds_at(i, N, i % 7 == 3, dump_side=label.startswith(('dump:', 'yobj:dump')))]:
+        for i, ek in [(i, k) for i in (range(N) if only is None else [only]) for k in kinds_at(i, N, i % 7 == 3, dump_side=label.startswith(('dump:', 'dumpsame:', 'yobj:dump')))]:       # (not dumpstream: its documents come from a generator of ours, PEP 479)
             exc = fresh_exc(i, ek)
+            state0 = exc_state(exc)
             ctx.stat('kind:' + type(exc).__name__)
             cb.n, cb.fail_at, cb.exc, cb.raised = 0, i, exc, False
             try:
@@ -398,7 +451,20 @@ def callback_cases(env, r, only=None):
             if cb.raised and (st != 'exc' or e is not exc):
                 ctx.violation(dict(case, index=i), {'what': 'the callback\'s exception did not reach the caller unchanged', 'injected': repr(exc),
                                                     'got': 'no exception' if st != 'exc' else '%s: %s' % (type(e).__name__, str(e)[:150])}, None)
+            elif cb.raised and exc_state(e) != state0:
+                ctx.violation(dict(case, index=i), {'what': 'the callback\'s exception reached the caller as the same object but altered (arguments, attributes, notes or cause)',
+                                                    'before': repr(state0)[:300], 'after': repr(exc_state(e))[:300]}, None)
             cb.fail_at = None
+            if cb.raised and holder is not None:
+                part = holder['ws'].written()
+                ctx.stat('callback_prefix_checks')
+                if part is not None and not ref.startswith(part):
+                    ctx.violation(dict(case, index=i), {'what': 'text written to the caller\'s stream before the callback failed is not a prefix of the fault-free text', 'written': repr(part[-80:])}, None)
+            if cb.raised and label.startswith('dumpsame:'):
+                cb.n = 0
+                ctx.stat('same_value_redumps')
+                if fn() != ref:
+                    ctx.violation(dict(case, index=i), {'what': 'dumping the same value objects again after the failed call gives another text'}, None)
             env.after(case, i)
         cb.n, cb.fail_at = 0, None
         if fn() != ref:
